@@ -15,7 +15,7 @@ trap 'git -C /repo worktree remove --force "$wt" 2>/dev/null; git -C /repo check
 res() { echo "[seedtest] $*"; }
 git -C "$wt" apply "$seed/patch.diff" || { res "patch does not apply"; exit 2; }
 ( cd "$wt/$mod" && go test -vet=off -count=1 ./... >/tmp/seedtest.$$.log 2>&1 ); rc=$?
-res "existing tests of module $mod with patch: rc=$rc"; [ $rc -ne 0 ] && tail -20 /tmp/seedtest.$$.log
+res "existing tests of module $mod with patch: rc=$rc"; [ $rc -ne 0 ] && grep -E "^(--- FAIL|FAIL)" /tmp/seedtest.$$.log
 cp "$seed"/demo_test.go "$wt/$demo_dir/zz_seed_demo_test.go"
 ( cd "$wt/$mod" && eval "$demo_cmd" >/tmp/seedtest.$$.demo1 2>&1 ); d1=$?
 res "demo with patch: rc=$d1 (expected != 0)"
